@@ -185,6 +185,8 @@ def jobs(tier, seed):
                 if fs and not af:
                     continue
                 for ncat in ((0, 1, 2) if tier == 'quick' else (0, 1, 2, 3)):
+                    if ncat == 0 and source == 'memory':
+                        continue        # an in-memory forecast needs at least one catalog (an empty list means "use the loader")
                     out.append({'name': '%s apply_filters=%s filter_spatial=%s ncat=%d' % (source, af, fs, ncat), 'kind': 'hist',
                                 'config': {'source': source, 'apply_filters': af, 'filter_spatial': fs}, 'ncat': ncat, 'H': H,
                                 'cost': (ncat + 1) * 6 ** H})
